@@ -308,16 +308,27 @@ func v28numHash(wide bool) {
 		if rt.Bool("y.neg") {
 			sign = -1
 		}
-		coef := rt.U64Range("y.coef", v28coefMin, v28coefMax)
-		exp := rt.Pick("y.exp", 19) + 1
-		y = SuDnum{Dnum: dnum.Raw(sign, coef, exp)}
+		if wide {
+			coef := rt.U64Range("y.coef", v28coefMin, v28coefMax)
+			exp := rt.Pick("y.exp", 19) + 1
+			y = SuDnum{Dnum: dnum.Raw(sign, coef, exp)}
+		} else {
+			// every normalized decimal whose value is a non-zero integer of the int16 range:
+			// mag (e digits) x 10^(16-e), exponent e
+			mag := rt.U16("y.mag")
+			e := rt.Pick("y.digits", 5) + 1
+			lo, pow := uint16(1), uint64(v28coefMin)
+			for i := 1; i < e; i++ {
+				lo, pow = lo*10, pow/10
+			}
+			rt.Assume(lo <= mag && (e == 5 || mag < lo*10) && mag <= 32768 && (sign < 0 || mag <= 32767))
+			y = SuDnum{Dnum: dnum.Raw(sign, uint64(mag)*pow, e)}
+		}
 	case 3:
 		y = SuDnum{Dnum: dnum.Zero}
 	}
 	if wide {
 		rt.Assume(yk == 2 && !small)
-	} else {
-		rt.Assume(yk != 2 || small)
 	}
 	// x is an integer: its Equal is exact for every kind of y
 	eq := x.Equal(y)
@@ -326,23 +337,56 @@ func v28numHash(wide bool) {
 		return
 	}
 	rt.Reach("equal-pair")
-	rt.Assert("hash/equal-numbers-same-hash", x.Hash() == y.Hash() && x.Hash2() == y.Hash2())
+	if !wide || rt.Pick("check", 2) == 0 {
+		rt.Assert("hash/equal-numbers-same-hash", x.Hash() == y.Hash() && x.Hash2() == y.Hash2())
+	}
+	if wide {
+		v28lookup("member/number-found-under-equal-key", x, y)
+	}
+}
+
+// v28lookup: a member stored under x is found under y and vice versa
+func v28lookup(label string, x, y Value) {
 	ob := &SuObject{}
 	ob.Set(x, SuInt(7))
 	g := ob.Get(nil, y)
 	rt.Observe("found", g != nil)
-	rt.Assert("member/number-found-under-equal-key", g == SuInt(7))
+	rt.Assert(label, g == SuInt(7))
 	ob2 := &SuObject{}
 	ob2.Set(y, SuInt(7))
 	g2 := ob2.Get(nil, x)
 	rt.Observe("found2", g2 != nil)
-	rt.Assert("member/number-found-under-equal-key", g2 == SuInt(7))
+	rt.Assert(label, g2 == SuInt(7))
+}
+
+// C28 numbers: member lookup under an Equal number in another representation, for an
+// enumerated set of integers in the small-int range (the solver-decided part is the hash
+// equality of VerifC28NumHash; the map itself is C36).
+//
+//symgo:harness prop=C28 tier=quick timeout=300 bounds=n_in_{-32768,-129,-1,0,1,2,9,10,127,128,1000,32767};key_pairs_of_small_int|SuInt64|decimal
+func VerifC28NumLookup() {
+	ns := []int{-32768, -129, -1, 0, 1, 2, 9, 10, 127, 128, 1000, 32767}
+	n := ns[rt.Pick("n", len(ns))]
+	mk := func(k int) Value {
+		switch k {
+		case 0:
+			return SuInt(n)
+		case 1:
+			return SuInt64{int64: int64(n)}
+		}
+		return SuDnum{Dnum: dnum.FromInt(int64(n))}
+	}
+	x, y := mk(rt.Pick("x.kind", 3)), mk(rt.Pick("y.kind", 3))
+	rt.Reach("built")
+	rt.Assert("member/number-equal", x.Equal(y) && y.Equal(x))
+	rt.Assert("hash/equal-numbers-same-hash", x.Hash() == y.Hash())
+	v28lookup("member/number-found-under-equal-key", x, y)
 }
 
 // C28 numbers: Equal numbers hash equally and find each other's members - integers in any
 // representation, and decimals against integers in the small-int range.
 //
-//symgo:harness prop=C28 tier=quick shards=4 timeout=300 bounds=x:any_small_int_or_any_SuInt64;y:small_int|SuInt64|decimal_zero|any_finite_16-digit_decimal_with_exponent_1..19_when_x_is_in_the_int16_range outside=decimal_against_an_integer_outside_int16_(VerifC28NumHashWide)
+//symgo:harness prop=C28 tier=quick arith=int shards=4 timeout=300 bounds=x:any_small_int_or_any_SuInt64;y:small_int|SuInt64|decimal_zero|every_normalized_decimal_holding_a_non-zero_integer_of_the_int16_range outside=decimal_against_an_integer_outside_int16_(VerifC28NumHashWide)
 func VerifC28NumHash() {
 	v28numHash(false)
 }
@@ -497,15 +541,16 @@ func v28model(a, b v28m) int {
 
 // v28pair: everything the property says about two values
 func v28pair(a, b Value, ma, mb v28m) {
+	// (Equal first: its outcome then is an explicit equation of the path condition)
+	eab, eba := a.Equal(b), b.Equal(a)
+	rt.Observe("eab", eab)
+	rt.Observe("eba", eba)
+	rt.Assert("equal/symmetric", eab == eba)
 	cab, cba := a.Compare(b), b.Compare(a)
 	rt.Reach("compared")
 	rt.Observe("cab", cab)
 	rt.Observe("cba", cba)
 	rt.Assert("order/antisymmetric", v28sgn(cab) == -v28sgn(cba))
-	eab, eba := a.Equal(b), b.Equal(a)
-	rt.Observe("eab", eab)
-	rt.Observe("eba", eba)
-	rt.Assert("equal/symmetric", eab == eba)
 	if ma.rank != mb.rank {
 		rt.Assert("order/boolean<number<string<date<object", v28sgn(cab) == v28cmpInt(ma.rank, mb.rank))
 		rt.Assert("equal/only-inside-a-class", !eab)
@@ -626,21 +671,24 @@ func v28obEqual(a, b v28obm) bool {
 }
 
 func v28obPair(a, b Value, ma, mb v28obm) {
+	eab, eba := a.Equal(b), b.Equal(a)
+	rt.Observe("eab", eab)
+	rt.Assert("object/equal-symmetric", eab == eba)
+	rt.Assert("object/equal-is-same-members", eab == v28obEqual(ma, mb))
 	cab, cba := a.Compare(b), b.Compare(a)
 	rt.Reach("compared")
 	rt.Observe("cab", cab)
 	rt.Assert("object/antisymmetric", v28sgn(cab) == -v28sgn(cba))
 	rt.Assert("object/order-by-list-members", v28sgn(cab) == v28model(v28m{rank: 4, e: ma.list}, v28m{rank: 4, e: mb.list}))
-	eab, eba := a.Equal(b), b.Equal(a)
-	rt.Observe("eab", eab)
-	rt.Assert("object/equal-symmetric", eab == eba)
-	rt.Assert("object/equal-is-same-members", eab == v28obEqual(ma, mb))
 	if !eab {
 		return
 	}
 	rt.Reach("equal-pair")
 	rt.Assert("object/equal-implies-compare-0", cab == 0)
-	rt.Assert("hash/equal-objects-same-hash", a.Hash() == b.Hash() && a.Hash2() == b.Hash2())
+	if rt.Pick("check", 2) == 0 {
+		rt.Assert("hash/equal-objects-same-hash", a.Hash() == b.Hash() && a.Hash2() == b.Hash2())
+		return
+	}
 	ob := &SuObject{}
 	ob.Set(a, SuInt(7))
 	g := ob.Get(nil, b)
